@@ -39,6 +39,7 @@ type World struct {
 	globTypes     typeutil.Map // types that occur in some package-level variable
 	globTypesOnce sync.Once
 	privAlloc     map[*ssa.Alloc]bool
+	unfolds       map[string][][2]*ssa.Function // interface type -> (verifX, verifXDef) pairs
 	funcs     map[*ssa.Function]int64
 	funcByID  map[int64]*ssa.Function
 	typeTags  map[string]int64
@@ -314,8 +315,20 @@ func (w *World) contractFor(fn *ssa.Function) *Contract {
 		// cgo stubs (_Cfunc_*) have generated bodies that call into C; a function of another
 		// package of the module may be given an assumed contract instead of being expanded
 		// (listed as trusted wherever it is used)
+		qm := pp + "." + key
+		if strings.HasPrefix(key, "(") {
+			// (*T).M -> (*pkg.T).M
+			i := strings.Index(key, ")")
+			recv := key[1:i]
+			star := ""
+			if strings.HasPrefix(recv, "*") {
+				star = "*"
+				recv = recv[1:]
+			}
+			qm = "(" + star + pp + "." + recv + ")" + key[i+1:]
+		}
 		for _, c := range w.all {
-			if c.Kind == "extern" && c.Target == pp+"."+key {
+			if c.Kind == "extern" && c.Target == qm {
 				return c
 			}
 		}
@@ -446,4 +459,29 @@ func (w *World) debugRefsOf(fn *ssa.Function) map[string][]*ssa.DebugRef {
 	}
 	w.debugRefs[fn] = m
 	return m
+}
+
+// unfoldsFor: the (ghost function, definition) pairs declared for interface type t.
+func (w *World) unfoldsFor(t types.Type) [][2]*ssa.Function {
+	if w.unfolds == nil {
+		w.unfolds = map[string][][2]*ssa.Function{}
+		for path, sp := range w.spkgs {
+			if !strings.HasPrefix(path, modPath) {
+				continue
+			}
+			for name, m := range sp.Members {
+				def, ok := m.(*ssa.Function)
+				if !ok || !strings.HasPrefix(name, "verif") || !strings.HasSuffix(name, "Def") || len(def.Blocks) == 0 || len(def.Params) != 1 {
+					continue
+				}
+				uf := sp.Func(strings.TrimSuffix(name, "Def"))
+				if uf == nil || len(uf.Blocks) != 0 || len(uf.Params) != 1 || !types.Identical(uf.Params[0].Type(), def.Params[0].Type()) {
+					continue
+				}
+				k := types.TypeString(def.Params[0].Type(), nil)
+				w.unfolds[k] = append(w.unfolds[k], [2]*ssa.Function{uf, def})
+			}
+		}
+	}
+	return w.unfolds[types.TypeString(t, nil)]
 }
